@@ -1,6 +1,6 @@
 """C11 — file-backed stores replace their file atomically at every failure point.
 
-T2 (differential) + property monitors on the REAL stores in temp directories under /tmp/verif-c11c12:
+T2 (differential) + property monitors on the REAL stores in temp directories under /tmp/verif-c11c12-<pid>:
 
 * `builtins.open` (file-object proxy counting `write`/`close`), `os.replace`, `os.remove` are wrapped from the harness
   (`_store_common.Recorder`); nothing in /repo is touched.
